@@ -48,6 +48,16 @@ func ConstraintErrorAddPathSegment(err error, pathSegment string) error {
 	return err
 }
 
+// constraintErrorPath returns the path recorded by the ConstraintError in err's chain, if there is one.
+// Code that reports a nested error inside the message of a new ConstraintError uses it to keep the path.
+func constraintErrorPath(err error) []string {
+	var c *ConstraintError
+	if errors.As(err, &c) {
+		return c.Path
+	}
+	return nil
+}
+
 // NoSuchStepError indicates that the given step is not supported by the plugin.
 type NoSuchStepError struct {
 	Step string
